@@ -66,7 +66,7 @@ class Ctx:
             raise Inconclusive("harness build failed:\n" + p.stdout + p.stderr)
         return out
 
-    def vrun(self, args, race=False, timeout=3600, env=None):
+    def vrun(self, args, race=False, timeout=3600, env=None, allow_crash=False):
         """Run the harness; returns its statistics dict."""
         exe = self.build(race)
         self._n += 1
@@ -76,6 +76,12 @@ class Ctx:
         if env:
             e.update(env)
         p = subprocess.run([exe] + args + ["-stats", st], capture_output=True, text=True, timeout=timeout, env=e)
+        if (p.returncode != 0 or not os.path.exists(st)) and allow_crash and ("fatal error:" in p.stderr or "panic:" in p.stderr):
+            # the process under test died (Go runtime fatal error / unrecovered panic): that is an observation
+            i = p.stderr.find("fatal error:")
+            if i < 0:
+                i = p.stderr.find("panic:")
+            return dict(counts={"crashed": 1}, samples=[], crash=p.stderr[i:i + 3000], stderr=p.stderr[-4000:])
         if p.returncode != 0 or not os.path.exists(st):
             raise Inconclusive("harness failed (%s): %s" % (" ".join(args), (p.stdout + p.stderr)[-2000:]))
         with open(st) as f:
